@@ -35,6 +35,11 @@ Definition go_slice (l : list Z) (lo hi : Z) : gores (list Z) :=
   then Val (firstn (Z.to_nat (hi - lo)) (skipn (Z.to_nat lo) l)) else GoPanic.
 (* x[lo:] was handed to a callee that wrote through it: its cells replace x's cells from lo on *)
 Definition go_splice (l : list Z) (lo : Z) (sub : list Z) : list Z := firstn (Z.to_nat lo) l ++ sub.
+(* binary.LittleEndian.Uint16/32/64(p): the first w bytes as a little-endian number; panics when p is shorter (the
+   library indexes p[w-1] first) *)
+Fixpoint le_valZ (bs : list Z) : Z := match bs with [] => 0 | b :: r => b + 256 * le_valZ r end.
+Definition go_le_get (w : nat) (p : list Z) : gores Z :=
+  if (List.length p <? w)%nat then GoPanic else Val (le_valZ (firstn w p)).
 Definition go_nonneg (c : Z) : gores Z := if 0 <=? c then Val c else GoPanic.
 
 Definition go_err_eqb (a b : option string) : bool :=
